@@ -458,6 +458,7 @@ func (el *eventloop) ticker() {
 	}
 	el.nextTicker = now.Add(time.Second)
 
+	clusterMu.Lock()
 	if EngineGlobal.ClusterNodes.serverChanged {
 		vhook.Point("ticker.afterReadChanged")
 		logging.Infof("[server changed] start load new server, old redis nodes: %+v", EngineGlobal.ProxyAddrs)
@@ -500,6 +501,7 @@ func (el *eventloop) ticker() {
 		EngineGlobal.ClusterNodes.serverChanged = false
 		logging.Infof("[server changed] end load new server, cost: %s, new redis nodes: %+v", time.Since(now), EngineGlobal.ProxyAddrs)
 	}
+	clusterMu.Unlock()
 
 	for k, v := range EngineGlobal.ProxyPool {
 		GlobalStats.RedisServerActive.WithLabelValues(k).Set(float64(v.ActiveCount()))
